@@ -367,7 +367,7 @@ type readerTask struct {
 func runReaders(c *simrun.Ctx) *simrun.Violation {
 	t := c.T
 	st := c.Stats
-	proto0 := corpus[t.Draw("type", len(corpus))]
+	proto0 := pickType(t)
 	// type information comes from the registry, not from the generated type's
 	// own methods: nothing of the generated code may run before the tasks do
 	info := infoOf(proto0)
